@@ -261,6 +261,7 @@ and `np.stack((v, v, v), axis=1)` on one value -/
 structure Ops (Val : Type) where
   div : Val → Val → Val
   mulParam : String → Val → Val
+  invProd : Val → Val → Val
   zero : Val
   one : Val
   triple : Val → Val
@@ -284,20 +285,24 @@ def evalSrc {Val : Type} (ops : Ops Val) (t : HaloCols Val) : Src → Except Fau
     match t.cols.lookup f with
     | some v => if v.length = t.hid.length then .ok v else .error .badLength
     | none => .ok (List.replicate t.hid.length ops.zero)
+  | .invProd a b =>
+    match evalSrc ops t a, evalSrc ops t b with
+    | .ok x, .ok y => .ok (List.zipWith ops.invProd x y)
+    | .error e, _ => .error e
+    | _, .error e => .error e
 
 open AbacusVerif.Generated.StagingCols in
-/-- the one source expression of array `v` under the flag set; none or several is not a program the model
-can mirror -/
-def singleSource (tab : List (String × Src × Guard)) (flags : List String) (v : String) : Except Fault Src :=
-  match sourcesOf tab flags v with
+/-- the one source expression recorded for array `v`; none or several is not a program the model can mirror -/
+def singleSource (tab : List (String × Src)) (v : String) : Except Fault Src :=
+  match sourcesOf tab v with
   | [s] => .ok s
   | _ => .error .rejected
 
 open AbacusVerif.Generated.StagingCols in
 /-- the values slab `t` contributes to array `v`; a 1-D velocity-deviate column is stacked three times -/
-def slabArray {Val : Type} (ops : Ops Val) (tab : List (String × Src × Guard)) (flags : List String)
-    (veldev1d : Bool) (t : HaloCols Val) (v : String) : Except Fault (String × List Val) :=
-  match singleSource tab flags v with
+def slabArray {Val : Type} (ops : Ops Val) (tab : List (String × Src)) (veldev1d : Bool) (t : HaloCols Val)
+    (v : String) : Except Fault (String × List Val) :=
+  match singleSource tab v with
   | .error e => .error e
   | .ok src =>
     match evalSrc ops t src with
@@ -305,9 +310,9 @@ def slabArray {Val : Type} (ops : Ops Val) (tab : List (String × Src × Guard))
     | .ok col => .ok (v, if veldev1d && v == "hveldev" then col.map ops.triple else col)
 
 open AbacusVerif.Generated.StagingCols in
-def slabArrays {Val : Type} (ops : Ops Val) (tab : List (String × Src × Guard)) (flags : List String)
-    (veldev1d : Bool) (names : List String) (t : HaloCols Val) : Except Fault (HaloCols Val) :=
-  match mapE (slabArray ops tab flags veldev1d t) names with
+def slabArrays {Val : Type} (ops : Ops Val) (tab : List (String × Src)) (veldev1d : Bool) (names : List String)
+    (t : HaloCols Val) : Except Fault (HaloCols Val) :=
+  match mapE (slabArray ops tab veldev1d t) names with
   | .error e => .error e
   | .ok cols => .ok { hid := t.hid, cols := cols }
 
@@ -321,6 +326,7 @@ def dOps (params : List (String × Rat)) : Ops DVal where
   mulParam := fun p x => match params.lookup p with
     | some c => x.map (· * c)
     | none => []                       -- an unknown parameter leaves no value (shows up as a disagreement)
+  invProd := fun x y => List.zipWith (fun a b => 1 / a / b) x y
   zero := [0]
   one := [1]
   triple := fun x => x ++ x ++ x
@@ -408,9 +414,6 @@ def parseReq? (hd : List String) : Option Req :=
 def showNamed (unit : Int) (pre : String) (cols : NamedCols DVal) : String :=
   " ".intercalate (cols.map (fun c => s!"{pre}:{c.1}={showCol unit c.2}"))
 
-def dedup (l : List String) : List String :=
-  l.foldl (fun acc x => if acc.contains x then acc else acc ++ [x]) []
-
 open AbacusVerif.Generated.StagingCols in
 def runStaging (q : Req) (slabs : List Slab) : Except Fault String :=
   match slabRange q.nfiles q.nChunks q.chunk with
@@ -419,37 +422,32 @@ def runStaging (q : Req) (slabs : List Slab) : Except Fault String :=
   match pickSlabs slabs r with
   | .error e => .error e
   | .ok loaded =>
+  match entryOf q.flags with
+  | none => .error .rejected                                          -- a flag set that was not observed
+  | some ent =>
   if q.veldev1d && velDev1d ≠ "stack-axis1" then .error .rejected   -- a 1-D branch the model does not know
   else
   let ops := dOps q.params
-  -- halo side: per slab the arrays of the returned names, fill loop, sort block, assert
-  let names := (returnedVars q.flags).filter (· ≠ "hid")
-  match mapE (fun s => slabArrays ops haloSources q.flags q.veldev1d names s.halos) loaded with
+  -- halo side: per slab the arrays of the returned keys, fill loop, sort block, assert
+  let names := ent.returned.filter (· ≠ "hid")
+  match mapE (fun s => slabArrays ops ent.haloSources q.veldev1d names s.halos) loaded with
   | .error e => .error e
   | .ok hslabs =>
-  match stageHalos (permutedVars q.flags) names hslabs with
+  match stageHalos ent.permuted names hslabs with
   | .error e => .error e
   | .ok h =>
-  -- particle side: every array with an active fill statement (the id array `phid` apart), fill loop
-  let pvars := dedup (((partSources.filter (fun e => guardActive q.flags e.2.2)).map (·.1)).filter (· ≠ "phid"))
+  -- particle side: every returned array that has a source (the id array `phid` apart), fill loop
+  let pkeys := (ent.partSources.map (·.1)).filter (· ≠ "phid")
   let ploaded := if q.loadParts then loaded else []
-  match mapE (fun s => slabArrays ops partSources q.flags false pvars s.parts) ploaded with
+  match mapE (fun s => slabArrays ops ent.partSources false pkeys s.parts) ploaded with
   | .error e => .error e
   | .ok pslabs =>
-  match concatCols pvars pslabs with
+  match concatCols pkeys pslabs with
   | .error e => .error e
   | .ok p =>
-  let n := p.hid.length
-  -- what particle_data returns: local arrays under their key, constants
-  let ret := (partReturned.filter (fun e => guardActive q.flags e.2.2)).filterMap (fun e =>
-    match p.cols.lookup e.2.1 with
-    | some v => some (e.1, v)
-    | none => none)
-  let dflt := (partDefaults.filter (fun e => guardActive q.flags e.2.2)).map (fun e =>
-    (e.1, List.replicate n (if e.2.1 = "ones" then ops.one else ops.zero)))
-  let retVars := (partReturned.filter (fun e => guardActive q.flags e.2.2)).map (·.2.1)
-  let aux := p.cols.filter (fun c => !(retVars.contains c.1))
-  .ok s!"ok numslabs={r.2} hid={showList h.hid} {showNamed q.unit "h" h.cols} phid={showList p.hid} pinds={showList (pinds h.hid p.hid)} {showNamed q.unit "p" (ret ++ dflt)} {showNamed q.unit "aux" aux}"
+  let dflt := ent.partDefaults.map (fun e =>
+    (e.1, List.replicate p.hid.length (if e.2 = "ones" then ops.one else ops.zero)))
+  .ok s!"ok numslabs={r.2} hid={showList h.hid} {showNamed q.unit "h" h.cols} phid={showList p.hid} pinds={showList (pinds h.hid p.hid)} {showNamed q.unit "p" (p.cols ++ dflt)}"
 
 /-- request: `staging nfiles=<n> nchunks=<n> chunk=<int> flags=<want_AB,…|-> parts=<0|1> veldev1d=<0|1> unit=<int>
 params=<name:scaled,…|-> (slab hid <ids> (col <field> <vals>)* phid <ids> (pcol <field> <vals>)*)*` — one `slab`
